@@ -159,6 +159,12 @@ def run_connect(case, shared_home=None):
             kw['hostkey_b64'] = base64.b64encode(K[case.get('server_key', 'server')].asbytes()).decode()
         elif case['pinned'] == 'd':
             kw['hostkey_b64'] = base64.b64encode(K['other' if case.get('server_key', 'server') != 'other' else 'third'].asbytes()).decode()
+        if case.get('sshcfg'):
+            # an OpenSSH client configuration file named by the caller: none of its options may weaken the host-key verification
+            cfgp = os.path.join(home, 'sshconfig-%d' % (abs(hash(tuple(case['sshcfg']))) % 100000))
+            with open(cfgp, 'w') as fh:
+                fh.write('Host %s\n' % case.get('sshcfg_host', '*') + ''.join('    %s\n' % o for o in case['sshcfg']))
+            kw['ssh_config'] = cfgp
         # credentials: n attempts = key file first (if any), then password
         n = len(case['auths'])
         if n >= 2:
